@@ -18,6 +18,8 @@ import sys
 import time
 
 HERE = os.path.dirname(os.path.abspath(__file__))
+# where evidence/ and replays/ go; only trials against scratch trees (scripts/try_seed.sh) redirect it
+OUT = os.environ.get("VERIF_OUT") or HERE
 PY = os.environ.get("VERIF_PYTHON", "/venv/bin/python")
 KNOWN = os.path.join(HERE, "known_findings.json")
 sys.path.insert(0, HERE)
@@ -96,7 +98,7 @@ def cmd_check(a):
         return 2
     tmp = os.path.join(HERE, ".tmp", "%s-%d-%d" % (prop, os.getpid(), int(time.time())))
     os.makedirs(tmp, exist_ok=True)
-    os.makedirs(os.path.join(HERE, "evidence"), exist_ok=True)
+    os.makedirs(os.path.join(OUT, "evidence"), exist_ok=True)
     t0 = time.time()
     procs = []
     # workers of the same variant share one index space (windex within the variant group)
@@ -164,10 +166,10 @@ def cmd_check(a):
     rev = repo_rev()
     reported = []
     unconfirmed = []
-    os.makedirs(os.path.join(HERE, "replays"), exist_ok=True)
+    os.makedirs(os.path.join(OUT, "replays"), exist_ok=True)
     for v in violations:
         tag = hashlib.blake2b(("%s|%s|%s" % (v["clause"], v["sig"], v["min_digest"])).encode(), digest_size=4).hexdigest()
-        path = os.path.join(HERE, "replays", "%s-%s-%s.json" % (prop, v["clause"].split(".", 1)[1], tag))
+        path = os.path.join(OUT, "replays", "%s-%s-%s.json" % (prop, v["clause"].split(".", 1)[1], tag))
         nvx = v["variant"].rsplit("nvx", 1)[1]
         rep = {"property": prop, "clause": v["clause"], "sig": v["sig"], "detail": v["detail"], "framework": v["fw"],
                "nvx": nvx, "mode": v["mode"], "repo_rev": rev, "seed": seed, "run_seed": v["seed"], "run_index": v["index"],
@@ -221,7 +223,7 @@ def cmd_check(a):
         ev["coverage"]["dead_workers"] = [{"worker": w, "variant": "%s-nvx%s" % v, "rc": rc, "stderr_tail": e[-800:]} for w, v, rc, e in dead]
     if harness_errors:
         ev["coverage"]["harness_errors"] = [{"variant": e["variant"], "error": e["error"][-600:]} for e in harness_errors[:5]]
-    with open(os.path.join(HERE, "evidence", "%s.json" % prop), "w") as f:
+    with open(os.path.join(OUT, "evidence", "%s.json" % prop), "w") as f:
         json.dump(ev, f, indent=1, sort_keys=True)
 
     for k, e in sorted(known_hit.items()):
@@ -243,7 +245,7 @@ def cmd_check(a):
             v["clause"], v["sig"], path, json.dumps(rr)[:600]))
         rc = rc or 2
     for n, e in enumerate(harness_errors[:5]):
-        hp = os.path.join(HERE, "replays", "HARNESS-%s-%d.json" % (prop, n))
+        hp = os.path.join(OUT, "replays", "HARNESS-%s-%d.json" % (prop, n))
         with open(hp, "w") as f:
             json.dump({"property": prop, "clause": "harness", "sig": "harness", "framework": e["variant"].split("-")[0],
                        "nvx": e["variant"].rsplit("nvx", 1)[1], "mode": e.get("mode"), "choices": e.get("choices", []),
